@@ -99,7 +99,7 @@ def cmd_check(args, vx):
                 tags = info["tags"]
                 if "INTERNAL" in tags and prop not in tags:
                     tool_problems.append(f"internal contract needs update in unit {u}: {info['obligation']}")
-                elif prop in tags:
+                elif prop in tags or "*" in tags:
                     km = known_match(known, prop, info)
                     if km:
                         known_hits.append((km, info))
